@@ -294,6 +294,13 @@ impl MT104 {
             });
         }
 
+        if transactions.is_empty() {
+            return Err(crate::errors::ParseError::InvalidFormat {
+                message: "MT104: At least one transaction (sequence B, starting with field 21) is required"
+                    .to_string(),
+            });
+        }
+
         // Parse Sequence C (optional settlement details)
         let field_32b = parser.parse_optional_field::<Field32B>("32B")?;
         let field_19 = parser.parse_optional_field::<Field19>("19")?;
